@@ -44,6 +44,12 @@ class ExprMixin:
                 self.problem('operand {}: a spelling that is not a key of the register table is not refused but encoded as {}'.format(
                     v.view.src[1], v.default))
                 return v.view
+            if isinstance(v.default, Param):
+                # the operand as written goes on where it is no key: a string ends in a TypeError, a number outside the table
+                # (add 40, x1, x2) is encoded as it stands
+                self.problem('operand {}: a spelling that is not a key of the register table is not refused: the operand as '
+                             'written is encoded'.format(v.view.src[1]))
+                return v.view
             if v.default is None:
                 # None in integer arithmetic is a TypeError: the spellings that are no key end here
                 self.raises.append({'node': node, 'fn': self.chain()})
